@@ -251,6 +251,12 @@ func TestEventsThroughPipeline(t *testing.T) {
 		stageFilters = filtersGen().Draw(t, "stage-filters")
 		p := build(t, nb, maxConc, parsers, static, answers, nil)
 		defer p.close()
+		// some backends answer every event with an error (they did receive it): the others - and later events - are served all the same
+		for _, b := range p.backends {
+			if rapid.IntRange(0, 3).Draw(t, "backend-send-errors") == 0 {
+				b.SendErr = fmt.Errorf("backend refuses the event")
+			}
+		}
 		srv, err := web.NewHttpServer(logrus.StandardLogger(), p.top, "verif", "127.0.0.1:0", false, false, true, false, nil, nil)
 		if err != nil {
 			t.Fatalf("%v", err)
@@ -322,14 +328,25 @@ func TestEventsThroughPipeline(t *testing.T) {
 				p.in <- []*statsd.Datagram{{IP: gostatsd.Source(s.ip), Msg: []byte(strings.Join(lines, "\n")), Timestamp: 1, DoneFunc: func() {}}}
 			}(s)
 		}
-		swg.Wait()
-		// every sender's datagram has been taken by a parser; a barrier makes sure it was parsed and dispatched
-		var bar sync.WaitGroup
-		bar.Add(parsers)
-		for i := 0; i < parsers; i++ {
-			p.in <- []*statsd.Datagram{{Msg: nil, DoneFunc: func() { bar.Done(); bar.Wait() }}}
+		// every sender's datagram is taken by a parser; a barrier makes sure it was parsed and dispatched. An event's dispatch
+		// may wait for a free slot (max-concurrent-events) but every slot comes back: 30 s without progress is a stage that
+		// does not take events any more.
+		handedOver := make(chan struct{})
+		go func() {
+			swg.Wait()
+			var bar sync.WaitGroup
+			bar.Add(parsers)
+			for i := 0; i < parsers; i++ {
+				p.in <- []*statsd.Datagram{{Msg: nil, DoneFunc: func() { bar.Done(); bar.Wait() }}}
+			}
+			bar.Wait()
+			close(handedOver)
+		}()
+		select {
+		case <-handedOver:
+		case <-time.After(30 * time.Second):
+			vt.Fail(t, "C19:dispatch-blocked", "the events sent were not all taken by the pipeline within 30s (max-concurrent-events %d, %d backends)", maxConc, nb)
 		}
-		bar.Wait()
 		waited := make(chan struct{})
 		go func() { p.top.WaitForEvents(); close(waited) }()
 		select {
